@@ -9,7 +9,8 @@ EXTENDS StreamRef
 CONSTANTS HU,        \* header size in units
           Bodies,    \* set of body sizes in units
           MaxMsgs,
-          Trailer    \* units of trailing bytes after a malformed header
+          Trailer,   \* units of trailing bytes after a malformed header
+          WithTimeout
 VARIABLES lens, total,   \* the stream (chosen in Init)
           avail,         \* bytes delivered by the transport and not yet read (one fragment at a time)
           sent,          \* bytes the transport has delivered so far
@@ -17,8 +18,9 @@ VARIABLES lens, total,   \* the stream (chosen in Init)
           need,          \* bytes still needed by the current ReadFull
           got,           \* bytes obtained by the current ReadFull
           i,             \* index of the message being read
-          consumed, results
-vars == <<lens, total, avail, sent, pc, need, got, i, consumed, results>>
+          consumed, results,
+          stall          \* -1 = none; n >= 0 = the peer stalled after n bytes and the read deadline has passed (ReadTimeout)
+vars == <<lens, total, avail, sent, pc, need, got, i, consumed, results, stall>>
 
 Seqs(S, n) == UNION {[1..k -> S] : k \in 0..n}
 Decl == {HU + b : b \in Bodies} \cup {HU - 1, 0}      \* well-formed sizes and two malformed declarations
@@ -27,12 +29,12 @@ FullLen(s) == Sum(s, HU, Len(s)) + (IF Len(s) > 0 /\ s[Len(s)] < HU THEN Trailer
 
 Init == /\ lens \in Streams
         /\ total \in 0..FullLen(lens)
-        /\ avail = 0 /\ sent = 0 /\ pc = "hdr" /\ need = HU /\ got = 0 /\ i = 1 /\ consumed = 0 /\ results = <<>>
+        /\ avail = 0 /\ sent = 0 /\ pc = "hdr" /\ need = HU /\ got = 0 /\ i = 1 /\ consumed = 0 /\ results = <<>> /\ stall = -1
 
 \* the transport hands over the next fragment, of any size (one outstanding fragment at a time)
 Deliver == /\ pc # "done" /\ avail = 0 /\ sent < total
            /\ \E k \in 1..(total - sent) : avail' = k /\ sent' = sent + k
-           /\ UNCHANGED <<lens, total, pc, need, got, i, consumed, results>>
+           /\ UNCHANGED <<lens, total, pc, need, got, i, consumed, results, stall>>
 
 Finish(kind, idx) == results' = Append(results, [kind |-> kind, idx |-> idx, consumed |-> consumed])
 
@@ -41,7 +43,7 @@ ReadSome ==
   /\ pc \in {"hdr", "body"} /\ avail > 0 /\ need > 0
   /\ LET k == IF need < avail THEN need ELSE avail IN
      /\ avail' = avail - k /\ consumed' = consumed + k /\ got' = got + k /\ need' = need - k
-     /\ UNCHANGED <<lens, total, sent, pc, i, results>>
+     /\ UNCHANGED <<lens, total, sent, pc, i, results, stall>>
 
 \* ReadFull completed
 HdrDone ==
@@ -50,23 +52,31 @@ HdrDone ==
      ELSE IF lens[i] < HU
        THEN /\ pc' = "done" /\ Finish("err", 0) /\ UNCHANGED <<need, got, i, consumed>>     \* rejected, nothing further read
        ELSE /\ pc' = "body" /\ need' = lens[i] - HU /\ got' = 0 /\ UNCHANGED <<i, consumed, results>>
-  /\ UNCHANGED <<lens, total, avail, sent>>
+  /\ UNCHANGED <<lens, total, avail, sent, stall>>
 BodyDone ==
   /\ pc = "body" /\ need = 0
   /\ pc' = "hdr" /\ need' = HU /\ got' = 0 /\ i' = i + 1 /\ UNCHANGED consumed
   /\ Finish("msg", i)
-  /\ UNCHANGED <<lens, total, avail, sent>>
+  /\ UNCHANGED <<lens, total, avail, sent, stall>>
 \* the source is exhausted inside ReadFull
 SrcEnd ==
   /\ pc \in {"hdr", "body"} /\ need > 0 /\ avail = 0 /\ sent = total
   /\ pc' = "done" /\ UNCHANGED consumed
   /\ IF pc = "hdr" /\ got = 0 THEN Finish("eof", 0) ELSE Finish("err", 0)
-  /\ UNCHANGED <<lens, total, avail, sent, need, got, i>>
+  /\ UNCHANGED <<lens, total, avail, sent, need, got, i, stall>>
 
-Next == Deliver \/ ReadSome \/ HdrDone \/ BodyDone \/ SrcEnd
+\* Server.ReadTimeout: the reader is waiting for bytes the peer does not send in time; the read
+\* fails, the loop ends, and whatever the peer sends afterwards is never read
+Timeout == /\ WithTimeout /\ pc \in {"hdr", "body"} /\ need > 0 /\ avail = 0 /\ sent < total
+           /\ stall' = sent /\ pc' = "done" /\ Finish("err", 0)
+           /\ UNCHANGED <<lens, total, avail, sent, need, got, i, consumed>>
+Next == Deliver \/ ReadSome \/ HdrDone \/ BodyDone \/ SrcEnd \/ Timeout
 Spec == Init /\ [][Next]_vars
 
 \* R1: whatever the fragmentation, the reader's results are the expected ones
-ResultsAreExpected == pc = "done" => results = Expected(lens, total, HU)
-PrefixAlways == \E k \in 0..Len(Expected(lens, total, HU)) : results = SubSeq(Expected(lens, total, HU), 1, k)
+ResultsAreExpected == (pc = "done" /\ stall < 0) => results = Expected(lens, total, HU)
+\* after a read timeout: exactly the messages wholly received before the stall (the expectation for the stream cut there)
+Msgs(rs) == SelectSeq(rs, LAMBDA r : r.kind = "msg")
+TimeoutDeliversPrefix == (pc = "done" /\ stall >= 0) => Msgs(results) = Msgs(Expected(lens, stall, HU))
+PrefixAlways == stall >= 0 \/ \E k \in 0..Len(Expected(lens, total, HU)) : results = SubSeq(Expected(lens, total, HU), 1, k)
 =============================================================================
